@@ -513,10 +513,6 @@ def _is_sf_index_error(exc):
     return isinstance(exc, sf.ErrorInitIndex)
 
 
-def _py_labels(si_rows, raw_rows):
-    return raw_rows
-
-
 def _uniq_and_tree(py_tuples):
     """Status of a list of label tuples (Python values) as the labels of a new index."""
     st = R.unique_status([t if len(t) > 1 else t[0] for t in py_tuples])
